@@ -349,6 +349,10 @@ func PublishContext[T any](bus *EventBus, ctx context.Context, event T) {
 	if bus.beforePublishCtx != nil {
 		bus.beforePublishCtx(ctx, eventType, event)
 	}
+	// Persist after the hooks and before any handler runs
+	if bus.store != nil {
+		bus.persistEvent(ctx, eventType, event)
+	}
 
 	// Get handlers from appropriate shard
 	shard := bus.getShard(eventType)
